@@ -1,5 +1,5 @@
 (* HuffGenProofs2.v -- the bits[] phase of jpeg_gen_optimal_table: counting the
-   code sizes into UINT8 bits[33], the K.2 length-limiting loop, removal of the
+   code sizes into UINT8 bits[65], the K.2 length-limiting loop, removal of the
    pseudo symbol; preservation of the weighted (Kraft) sum 2^D. *)
 From Coq Require Import List ZArith Lia Bool Permutation Arith.
 From LJT Require Import model.Huff proofs.HuffGenBase proofs.HuffGenProofs.
@@ -11,7 +11,7 @@ Lemma D_big : 300 <= D. Proof. unfold D; lia. Qed.
 (* weighted sum over the index window [lo, lo+cnt) with exponent base E *)
 Definition W (E : Z) (lo cnt : nat) (b : list Z) : Z :=
   sumZ (map (fun l => nthZ b l * 2 ^ (E - Z.of_nat l)) (seq lo cnt)).
-Definition WD (b : list Z) : Z := W D 0 33 b.
+Definition WD (b : list Z) : Z := W D 0 65 b.
 
 Lemma W_split E lo c1 c2 b : W E lo (c1 + c2) b = W E lo c1 b + W E (lo + c1) c2 b.
 Proof. unfold W. rewrite seq_app, map_app, sumZ_app. reflexivity. Qed.
@@ -60,7 +60,7 @@ Proof.
 Qed.
 
 (* ------------------------------------------------------- base invariant *)
-Definition BInv (b : list Z) : Prop := length b = 33%nat /\ forall l, 0 <= nthZ b l.
+Definition BInv (b : list Z) : Prop := length b = 65%nat /\ forall l, 0 <= nthZ b l.
 
 Lemma BInv_In b : BInv b -> forall x, In x b -> 0 <= x.
 Proof. intros [_ H] x Hx. destruct (In_nth _ _ 0 Hx) as (i & _ & <-). apply H. Qed.
@@ -69,7 +69,7 @@ Lemma wrap8_small x : 0 <= x <= 255 -> wrap8 x = x.
 Proof. intros; unfold wrap8; apply Z.mod_small; lia. Qed.
 
 Lemma bump_upd b i d :
-  BInv b -> (i < 33)%nat -> 0 <= nthZ b i + d <= 255 ->
+  BInv b -> (i < 65)%nat -> 0 <= nthZ b i + d <= 255 ->
   let b' := upd i (wrap8 (nthZ b i + d)) b in
   BInv b' /\ sumZ b' = sumZ b + d /\ WD b' = WD b + d * 2 ^ (D - Z.of_nat i) /\
   nthZ b' i = nthZ b i + d /\ (forall l, l <> i -> nthZ b' l = nthZ b l).
@@ -88,11 +88,11 @@ Proof.
 Qed.
 
 (* --------------------------------------------------------- count_bits *)
-Lemma count_bits_none cs : forall b, count_bits cs b = None -> exists c, In c cs /\ c > 32.
+Lemma count_bits_none cs : forall b, count_bits cs b = None -> exists c, In c cs /\ c > 64.
 Proof.
   induction cs as [|c t IH]; intros b H; cbn [count_bits] in H; [discriminate H|].
-  change (Z.of_nat MAX_CLEN) with 32 in H.
-  destruct (c >? 32) eqn:E.
+  change (Z.of_nat MAX_CLEN) with 64 in H.
+  destruct (c >? 64) eqn:E.
   - exists c. split; [left; reflexivity|lia].
   - destruct (IH _ H) as (c' & Hc & Hg). exists c'. split; [right; exact Hc|exact Hg].
 Qed.
@@ -101,16 +101,16 @@ Lemma count_bits_some cs : forall b b',
   BInv b -> sumZ b + Z.of_nat (length cs) <= 255 -> (forall c, In c cs -> 1 <= c) ->
   nthZ b 0 = 0 -> count_bits cs b = Some b' ->
   BInv b' /\ sumZ b' = sumZ b + Z.of_nat (length cs) /\
-  WD b' = WD b + sumZ (map pw cs) /\ nthZ b' 0 = 0 /\ (forall c, In c cs -> c <= 32).
+  WD b' = WD b + sumZ (map pw cs) /\ nthZ b' 0 = 0 /\ (forall c, In c cs -> c <= 64).
 Proof.
   induction cs as [|c t IH]; intros b b' Hb Hs Hc H0 E; cbn [count_bits] in E.
   - injection E as <-. cbn [length map sumZ]. repeat split; try apply Hb; try lia.
     intros c [].
-  - change (Z.of_nat MAX_CLEN) with 32 in E.
-    destruct (c >? 32) eqn:G; [discriminate E|].
+  - change (Z.of_nat MAX_CLEN) with 64 in E.
+    destruct (c >? 64) eqn:G; [discriminate E|].
     assert (Hc1 : 1 <= c) by (apply Hc; left; reflexivity).
     cbn [length] in Hs.
-    assert (Hi : (Z.to_nat c < 33)%nat) by lia.
+    assert (Hi : (Z.to_nat c < 65)%nat) by lia.
     pose proof (sumZ_term b (Z.to_nat c) (BInv_In b Hb)) as Hle.
     destruct Hb as [Lb Nb]. pose proof (Nb (Z.to_nat c)) as Hn0.
     destruct (bump_upd b (Z.to_nat c) 1 (conj Lb Nb) Hi ltac:(lia)) as (B1 & S1 & W1 & _ & O1).
@@ -127,10 +127,10 @@ Qed.
 Definition LInv (n : Z) (i : nat) (b : list Z) : Prop :=
   BInv b /\ sumZ b = n /\ WD b = 2 ^ D /\ nthZ b 0 = 0 /\ forall l, (i < l)%nat -> nthZ b l = 0.
 
-Lemma WD_split i b : (i <= 32)%nat ->
-  WD b = W D 0 i b + nthZ b i * 2 ^ (D - Z.of_nat i) + W D (S i) (32 - i) b.
+Lemma WD_split i b : (i <= 64)%nat ->
+  WD b = W D 0 i b + nthZ b i * 2 ^ (D - Z.of_nat i) + W D (S i) (64 - i) b.
 Proof.
-  intros H. unfold WD. replace 33%nat with (i + (1 + (32 - i)))%nat by lia.
+  intros H. unfold WD. replace 65%nat with (i + (1 + (64 - i)))%nat by lia.
   rewrite !W_split, W_one. cbn [Nat.add]. replace (i + 1)%nat with (S i) by lia. lia.
 Qed.
 
@@ -142,7 +142,7 @@ Lemma pow_D_split i : Z.of_nat i <= D -> 2 ^ D = 2 ^ (D - Z.of_nat i) * 2 ^ Z.of
 Proof. intros H. rewrite <- Z.pow_add_r by lia. f_equal. lia. Qed.
 
 (* the count at the largest used length is even *)
-Lemma top_even n i b : LInv n i b -> (1 <= i <= 32)%nat -> exists k, nthZ b i = 2 * k.
+Lemma top_even n i b : LInv n i b -> (1 <= i <= 64)%nat -> exists k, nthZ b i = 2 * k.
 Proof.
   intros (Hb & Hs & Hw & H0 & Hz) Hi.
   rewrite (WD_split i b) in Hw by lia.
@@ -163,7 +163,7 @@ Qed.
 
 (* some shorter length is in use when the top length is above 16 *)
 Lemma lower_used n i b :
-  LInv n i b -> (17 <= i <= 32)%nat -> n <= 255 ->
+  LInv n i b -> (17 <= i <= 64)%nat -> n <= 255 ->
   (forall l, (l <= i - 2)%nat -> nthZ b l = 0) -> False.
 Proof.
   intros (Hb & Hs & Hw & H0 & Hz) Hi Hn Hlow.
@@ -212,7 +212,7 @@ Qed.
 
 (* ------------------------------------------------------- one K.2 step *)
 Lemma limit_once_spec n i b :
-  LInv n i b -> (17 <= i <= 32)%nat -> n <= 255 -> nthZ b i > 0 ->
+  LInv n i b -> (17 <= i <= 64)%nat -> n <= 255 -> nthZ b i > 0 ->
   exists b', limit_once b i = Some b' /\ LInv n i b' /\ nthZ b' i = nthZ b i - 2.
 Proof.
   intros I Hi Hn Hpos.
@@ -278,7 +278,7 @@ Lemma limit_while_eq fuel b i :
   else Some (Some b).
 Proof. destruct fuel; reflexivity. Qed.
 
-Lemma limit_while_spec n i : (17 <= i <= 32)%nat -> n <= 255 ->
+Lemma limit_while_spec n i : (17 <= i <= 64)%nat -> n <= 255 ->
   forall fuel b, LInv n i b -> nthZ b i <= 2 * Z.of_nat fuel ->
   exists b', limit_while fuel b i = Some (Some b') /\ LInv n i b' /\ nthZ b' i = 0.
 Proof.
@@ -307,7 +307,7 @@ Lemma limit_for_S k b :
   end.
 Proof. reflexivity. Qed.
 
-Lemma limit_for_spec n : n <= 255 -> forall k b, (k <= 16)%nat -> LInv n (16 + k) b ->
+Lemma limit_for_spec n : n <= 255 -> forall k b, (k <= 48)%nat -> LInv n (16 + k) b ->
   exists b', limit_for k b = Some (Some b') /\ LInv n 16 b'.
 Proof.
   intros Hn. induction k as [|k IH]; intros b Hk I.
@@ -367,19 +367,19 @@ Qed.
 
 (* ------------------------------------------- remove_pseudo and read-out *)
 Lemma tail_spec n b0 :
-  2 <= n <= 255 -> LInv n 32 b0 ->
+  2 <= n <= 255 -> LInv n 64 b0 ->
   exists b1 b2 L,
-    limit_for 16 b0 = Some (Some b1) /\ remove_pseudo b1 = Some b2 /\ (1 <= L <= 16)%nat /\
+    limit_for 48 b0 = Some (Some b1) /\ remove_pseudo b1 = Some b2 /\ (1 <= L <= 16)%nat /\
     let bits := firstn 17 b2 in
     length bits = 17%nat /\ nthZ bits 0 = 0 /\ (forall l, 0 <= nthZ bits l <= 255) /\
     sumZ (skipn 1 bits) = n - 1 /\ maxlen bits = Z.of_nat L /\
     kraft16 bits = 2 ^ 16 - 2 ^ (16 - Z.of_nat L).
 Proof.
   intros Hn I0.
-  destruct (limit_for_spec n ltac:(lia) 16 b0 ltac:(lia) I0) as (b1 & E1 & I1).
+  destruct (limit_for_spec n ltac:(lia) 48 b0 ltac:(lia) I0) as (b1 & E1 & I1).
   exists b1. pose proof I1 as (Hb & Hs & Hw & H0 & Hz).
   pose proof D_big as HD.
-  unfold remove_pseudo. destruct (find_j b1 16) as [L|] eqn:EJ.
+  unfold remove_pseudo. change LIMIT_LEN with 16%nat. destruct (find_j b1 16) as [L|] eqn:EJ.
   2:{ exfalso. pose proof (find_j_none _ _ EJ) as Hlow.
       unfold WD in Hw. rewrite W_zero in Hw.
       - assert (0 < 2 ^ D) by (apply Z.pow_pos_nonneg; lia). lia.
@@ -428,10 +428,10 @@ Proof.
   2:{ intros l Hl. rewrite nthZ_firstn.
       replace (l <? 17)%nat with true by (symmetry; apply Nat.ltb_lt; lia). reflexivity. }
   assert (EW : WD b2 = 2 ^ D - 2 ^ (D - Z.of_nat L)) by lia.
-  unfold WD in EW. replace 33%nat with (1 + (16 + 16))%nat in EW by reflexivity.
+  unfold WD in EW. replace 65%nat with (1 + (16 + 48))%nat in EW by reflexivity.
   rewrite !W_split in EW. cbn [Nat.add] in EW.
   rewrite (W_zero D 0 1) in EW by (intros l Hl; replace l with 0%nat by lia; exact H20).
-  rewrite (W_zero D 17 16) in EW by (intros l Hl; apply Z2; lia).
+  rewrite (W_zero D 17 48) in EW by (intros l Hl; apply Z2; lia).
   rewrite (W_scale D 16 1 16) in EW by (cbn; lia).
   replace (2 ^ D) with (2 ^ (D - 16) * 2 ^ 16) in EW
     by (rewrite <- Z.pow_add_r by lia; f_equal; lia).
